@@ -82,3 +82,23 @@ def replay_seqdiff(r):
     exp = s2[s:] - s2[:-s]
     bad = res.shape != exp.shape or not np.allclose(res, exp)
     return {"violation": bool(bad), "detail": "got shape %s expected %s" % (res.shape, exp.shape)}
+
+
+def replay_window_lemma(r):
+    inp = r["inputs"]
+    L, width, stride = int(inp["L"]), int(inp["width"]), int(inp["stride"])
+    if L > 200000:            # keep the replay small: same residues, smaller size
+        k = (L - width) // stride
+        k = min(k, 1000)
+        width = min(width, 50)
+        stride = min(stride, 50)
+        L = width + k * stride + (int(inp["L"]) - int(inp["width"])) % max(1, min(int(inp["stride"]), 50))
+    seq = np.arange(L, dtype=np.float64)
+    try:
+        res = SlidingWindowTransformer(window_width=width, window_stride=stride).fit([seq]).transform([seq])[0]
+    except Exception as e:
+        return {"violation": True, "detail": "%s: %s" % (type(e).__name__, e)}
+    n = -((-(L - width + 1)) // stride)
+    exp = np.array([seq[i * stride:i * stride + width] for i in range(n)]).reshape(n, width)
+    bad = res.shape != exp.shape or not np.array_equal(res, exp)
+    return {"violation": bool(bad), "detail": "L=%d width=%d stride=%d: %d windows, expected %d" % (L, width, stride, res.shape[0], n)}
